@@ -306,6 +306,13 @@ func init() {
 			fe = append(fe, []string{"name", fmt.Sprint(i)})
 		}
 		firstUse(r, fe)
+		r.Phase("names after other process histories and under other environments", func() {
+			var es [][]string
+			for _, l := range []string{"und", "fr", "en", "ja", "ja-JP", "zh-Hans", "en-GB", "mul"} {
+				es = append(es, []string{"namesall", l})
+			}
+			historyAndEnvironment(r, es, []string{"both"})
+		})
 		// the language fallback as a user meets it: through the language options of the report
 		// constructors (one to three options over {en, ja, fr, und}, DESIGN.md 10.4)
 		r.Phase("names through report language options", func() { optionLists(r, &evals) })
